@@ -18,8 +18,10 @@ def main():
         sys.exit(subprocess.call([sys.executable, a.replay]))
     seed = int(os.environ.get('VERIF_SEED', '0') or 0)
     sys.path.insert(0, VERIF)
-    mod = importlib.import_module(f'checks.{a.pid}')
-    run_main(lambda: mod.main(a.tier, seed))
+    def go():
+        mod = importlib.import_module(f'checks.{a.pid}')
+        return mod.main(a.tier, seed)
+    run_main(go)
 
 
 if __name__ == '__main__':
